@@ -80,6 +80,8 @@ NODE_FAMILIES = {
         node_cfg('ord-amev', me=1, amev=True, ord=True, props=ORD_PROPS),
         node_cfg('ord-amev-backup', me=3, amev=True, ord=True, props=ORD_PROPS),
         node_cfg('ord-core-v2', me=1, maxview=2, ord=True, props=ORD_PROPS),
+        # recovery messages (proposal + responses + commits from a relay) and the step to the next height
+        node_cfg('ord-rec-next1-v0', me=1, maxview=0, ord=True, family=('core', 'recovery', 'next1'), props=('CommitLock', 'PreCertificate', 'ResetClean', 'EarlyUsed')),
     ],
     'cover': [
         node_cfg('amev-v0s', me=1, amev=True, maxview=0),
